@@ -9,9 +9,13 @@
     generated documents whose string values draw from every character class every reader returns
     what loads returns, all writers write the same characters for every layout (indent, spacer,
     quote, newline, end_comment, align_values, separate_complex_types; UTF-8 where bytes are
-    written) and every string value survives save -> open.  Six broken variants of the model (raw
-    exit value, parse failures not counted, MAP schema for every root, universal newlines, latin-1
-    save, dump mixing up two options) must be rejected by TLC in every run.
+    written) and every string value survives save -> open - also when the values change and the
+    dictionary is saved to the SAME path again (same encoded length or other kinds, twice) and the
+    path is read again in the same process; `format` with OUT another file, IN itself or a symbolic
+    link to IN.  Eight broken variants of the model (raw exit value, parse failures not counted, MAP
+    schema for every root, universal newlines, latin-1 save, dump mixing up two options, format
+    opening OUT before reading IN, open remembering text per path and size) must be rejected by TLC
+    in every run.
 (G) verdict: every configuration / behaviour TLC emits carries the expectation of the spec (exit
     class and exact status, line counts per file, the API call a command line stands for, the
     character classes of every string value after every call, the layout of every written text).
@@ -43,7 +47,7 @@ RULE = ("exit status / stdout lines of `mappyfile validate`, bytes written by `f
         "configurations and the broken variants are rejected")
 
 INV_VALIDATE = ["ExitTotal", "ZeroIffAllGood", "ExactWhenFits", "ExpectMatches", "OneLinePerMessage"]
-INV_CLI = ["FormatIsSaveOpen", "FormatReplaces", "SchemaIsApi"]
+INV_CLI = ["FormatIsSaveOpen", "FormatReplaces", "FormatKeepsInput", "SchemaIsApi"]
 INV_API = ["FrontEndsAgree", "WritersAgree", "StringsSurvive"]
 ERR_COUNTS = {1, 2, 255, 256, 257, 300}
 WORKERS = 16
@@ -52,7 +56,7 @@ WORKERS = 16
 def consts(**kw):
     c = {"Scenarios": {"validate"}, "Mode": "all", "ErrCounts": ERR_COUNTS, "MaxFiles": 3, "StrIds": {1},
          "Layouts": "one", "SaveCodec": "utf8", "Newlines": "verbatim", "ExitRule": "contract",
-         "RootSchema": "own", "DumpOptions": "same"}
+         "RootSchema": "own", "DumpOptions": "same", "FormatOrder": "read-first", "OpenCache": "none", "Rewrites": 2}
     c.update(kw)
     return c
 
@@ -75,7 +79,7 @@ def tlc_jobs(quick, seed, n_api):
     }
     for name, kw, sc in NEGATIVES:
         jobs["c20_neg_" + name] = dict(cfg=tlc.cfg_text(constants=consts(Scenarios={sc}, MaxFiles=1, **kw),
-                                                        invariants=INV_VALIDATE + INV_API), workers=1, timeout=600)
+                                                        invariants=INV_VALIDATE + INV_CLI + INV_API), workers=1, timeout=600)
     return jobs
 
 
@@ -87,6 +91,8 @@ NEGATIVES = [
     ("latin1_save", {"SaveCodec": "latin1"}, "api"),
     ("map_schema_for_every_root", {"RootSchema": "map"}, "validate"),
     ("dump_mixes_options", {"DumpOptions": "sc-from-av", "Layouts": "some"}, "api"),
+    ("format_truncates_out_first", {"FormatOrder": "truncate-first"}, "format"),
+    ("open_remembers_text_by_size", {"OpenCache": "by-size"}, "api"),
 ]
 
 
@@ -449,34 +455,54 @@ def read_bytes(p):
 def format_case(h, root, idx, seed):
     env, act = h[0], h[1]
     post = act["post"]
+    target = env["target"]              # what OUT names: another file, IN itself, a symbolic link to IN
     rng = random.Random("%s-f%s" % (seed, idx))
     d = os.path.join(root, "f%05d" % idx)
     os.makedirs(d)
+    J = lambda n: os.path.join(d, n)    # noqa: E731
     text, extra, strings = format_doc(env["doc"], post["strs"], rng)
-    for fn, t in list(extra.items()) + [("in.map", text)]:
-        with open(os.path.join(d, fn), "w", encoding="utf-8", newline="") as f:
+    # in.map: the command's input; apiin.map: the copy the API call works on; orig.map: never written
+    for fn, t in list(extra.items()) + [("in.map", text), ("apiin.map", text), ("orig.map", text)]:
+        with open(J(fn), "w", encoding="utf-8", newline="") as f:
             f.write(t)
     if env["pre"]:                      # the output replaces an existing, longer file
         for fn in ("out.map", "api.map"):
-            with open(os.path.join(d, fn), "w") as f:
+            with open(J(fn), "w") as f:
                 f.write("# older content\n" * 400)
-    args = ["format", "in.map", "out.map"] + format_args(act["args"])
+    if target == "symlink":
+        os.symlink("in.map", J("out.map"))
+        os.symlink("apiin.map", J("api.map"))
+    out_name = "in.map" if target == "same" else "out.map"
+    api_name = "apiin.map" if target == "same" else "api.map"
+    args = ["format", "in.map", out_name] + format_args(act["args"])
     rc, out, err = cli(args, d)
-    got = read_bytes(os.path.join(d, "out.map"))
+    got = read_bytes(J(out_name))
     finds = []
     case = {"scenario": "format", "hist": h, "args": args, "status": rc, "stderr": err[-800:], "input": text}
-    what_cfg = "format in.map out.map %s (document %s)" % (" ".join(repr(a) for a in args[3:]), env["doc"])
+    what_cfg = "format in.map %s %s (document %s%s)" % (out_name, " ".join(repr(a) for a in args[3:]), env["doc"],
+                                                       ", out.map -> in.map" if target == "symlink" else "")
     try:
-        api_format(os.path.join(d, "in.map"), os.path.join(d, "api.map"), post["api"])
+        api_format(J("apiin.map"), J(api_name), post["api"])
     except Exception as ex:  # noqa: BLE001     the fixtures are well-formed documents: the API has to read and write them
         shutil.rmtree(d, ignore_errors=True)
         stage = "write|save" if isinstance(ex, (UnicodeError, OSError)) else "read|open"
         return [("C20|%s|raised|%s" % (stage, type(ex).__name__), "save(open(IN), OUT) raised %s on document %r: %s" % (
             type(ex).__name__, env["doc"], str(ex)[:150]), case)], {"rc": rc}
-    want = read_bytes(os.path.join(d, "api.map"))
-    if rc != post["status"]:
+    want = read_bytes(J(api_name))
+    in_place_bad = target != "other" and (got != want or read_bytes(J("in.map")) != read_bytes(J("apiin.map")) or rc != post["status"])
+    if in_place_bad:
+        case["cli_output"] = (got or b"").decode("utf-8", "replace")[:3000]
+        case["api_output"] = want.decode("utf-8", "replace")[:3000]
+        finds.append(("C20|format|in-place|%s" % target,
+                      "%s: exit status %d, IN holds %d bytes; save(open(IN), IN) leaves %d bytes (%s)" % (
+                          what_cfg, rc, len(read_bytes(J("in.map")) or b""), len(want), (err.strip().splitlines() or [""])[-1][:120]), case))
+    elif rc != post["status"]:
         finds.append(("C20|format|status", "%s: exit status %d; %s" % (what_cfg, rc, err.strip().splitlines()[-1:] or ""), case))
-    if got != want:
+    if target == "other" and read_bytes(J("in.map")) != text.encode("utf-8"):
+        finds.append(("C20|format|input-modified", "%s: IN was changed by the command" % what_cfg, case))
+    if target == "symlink" and not os.path.islink(J("out.map")):
+        case["note"] = "out.map is no longer a symbolic link"      # (not part of the property; recorded only)
+    if got != want and not in_place_bad:
         case["cli_output"] = (got or b"").decode("utf-8", "replace")[:3000]
         case["api_output"] = want.decode("utf-8", "replace")[:3000]
         blame = None
@@ -485,19 +511,19 @@ def format_case(h, root, idx, seed):
                 if post["api"]["lay"][opt] != dflt:
                     call = json.loads(json.dumps(post["api"]))
                     call["lay"][opt] = dflt
-                    api_format(os.path.join(d, "in.map"), os.path.join(d, "alt.map"), call)
-                    if read_bytes(os.path.join(d, "alt.map")) == got:
+                    api_format(J("orig.map"), J("alt.map"), call)
+                    if read_bytes(J("alt.map")) == got:
                         blame = opt
             for opt in ("expand", "comments"):
                 call = json.loads(json.dumps(post["api"]))
                 call[opt] = not call[opt]
-                api_format(os.path.join(d, "in.map"), os.path.join(d, "alt.map"), call)
-                if blame is None and read_bytes(os.path.join(d, "alt.map")) == got and got != want:
+                api_format(J("orig.map"), J("alt.map"), call)
+                if blame is None and read_bytes(J("alt.map")) == got and got != want:
                     blame = opt
         sig = "C20|format|option-ignored|%s" % blame if blame else "C20|format|differs-from-save-open|%s" % env["doc"]
         finds.append((sig, "%s: OUT differs from save(open(IN, expand_includes=%s, include_comments=%s), OUT, %s)" % (
             what_cfg, post["api"]["expand"], post["api"]["comments"], api_lay(post["api"]["lay"])), case))
-    elif got is not None:
+    elif got is not None and not in_place_bad:
         # the written text, projected: INCLUDE handling, comments, string values (as the spec says)
         try:
             t = got.decode("utf-8")
@@ -525,17 +551,20 @@ def select_format(cfgs, n, rng):
         for k, v in h[1]["args"].items():
             need.setdefault((k, v), []).append(h)
         need.setdefault(("doc", h[0]["doc"], h[0]["pre"]), []).append(h)
+        need.setdefault(("target", h[0]["target"]), []).append(h)
 
     def covered(key):
         c = 0
         for h in out:
             if key[0] == "doc":
                 c += (h[0]["doc"], h[0]["pre"]) == key[1:]
+            elif key[0] == "target":
+                c += h[0]["target"] == key[1]
             else:
                 c += h[1]["args"][key[0]] == key[1]
         return c
     for key in sorted(need, key=str):
-        while covered(key) < 2 and len(need[key]) > covered(key):
+        while covered(key) < (4 if key[0] == "target" else 2) and len(need[key]) > covered(key):
             out.append(rng.choice(need[key]))
     return out
 
@@ -601,12 +630,29 @@ def untranslate_eq(ref, got):
     return isinstance(ref, str) and isinstance(got, str) and "\r" in ref and got == ref.replace("\r\n", "\n").replace("\r", "\n")
 
 
+def same_length_variant(s):
+    """other characters, same classes, same UTF-8 length (ASCII letters change case, other non-ASCII
+    characters get their lowest bit flipped where that keeps class and length)"""
+    out = []
+    for ch in s:
+        c2 = ch
+        if ch.isascii() and ch.isalpha():
+            c2 = ch.swapcase()
+        elif ord(ch) >= 0x80:
+            c2 = chr(ord(ch) ^ 1)
+            if cls(c2) != cls(ch) or len(c2.encode("utf-8")) != len(ch.encode("utf-8")) or 0xD800 <= ord(c2) <= 0xDFFF:
+                c2 = ch
+        out.append(c2)
+    return "".join(out)
+
+
 def api_case(job):
     """replay one api behaviour of spec/Frontend.tla on one generated document (worker process)"""
     import mappyfile
     j, walk, fe, seed, root = job
     finds = []
-    info = {"calls": 0, "skipped": None, "kinds": fe[0]["kinds"], "order_sensitive": False, "one_of_av_sc": False}
+    info = {"calls": 0, "skipped": None, "kinds": fe[0]["kinds"], "order_sensitive": False, "one_of_av_sc": False,
+            "rewrites": 0, "same_size_rewrites": 0}
     rng = random.Random("%s-a%s" % (seed, j))
     conc = concretise.Concretiser(seed * 1000 + j)
     gen = fe[0]
@@ -627,19 +673,22 @@ def api_case(job):
     pt, ps, pd = (os.path.join(d, n) for n in ("t.map", "s.map", "d.map"))
     case = {"scenario": "api", "j": j, "seed": seed, "walk": walk, "hist": fe, "text": text}
     kw = api_lay(gen["lay"])
-    state = {"mem": None, "s_ref": None, "ref_s": None, "refs": {}}
+    state = {"mem": None, "s_ref": None, "ref_s": None, "refs": {}, "by_val": by_val, "kinds": gen["kinds"], "older": {},
+             "sval": sval, "how": ""}
 
     def check_read(op, of, post, fn):
         """a reader must return the dictionary the string API returns for the same characters, with
         every string value in the character classes the spec predicts"""
         info["calls"] += 1
         want_proj, want_leaves = (exp, exp_leaves) if of == "t" else state["ref_s"]
+        by_val, kinds, older = state["by_val"], state["kinds"], state["older"]
+        where = {"t": "file holding the generated text", "s": "file written by save", "r": "file saved again under the same name"}[of]
         try:
             got_d = fn()
         except Exception as ex:  # noqa: BLE001
             if post["ok"]:
                 finds.append(("C20|read|%s|raised|%s" % (op, type(ex).__name__),
-                              "%s of %s raised %s: %s" % (op, "the generated text" if of == "t" else "the saved file", type(ex).__name__, str(ex)[:100]), case))
+                              "%s of the %s raised %s: %s" % (op, where, type(ex).__name__, str(ex)[:100]), case))
             return None
         got = project.project(got_d)
         gl = leaves(got)
@@ -649,11 +698,15 @@ def api_case(job):
                     i = by_val[ev]
                     want = post["strs"][i - 1]
                     if not isinstance(gv, str) or runs(gv) != want or gv != ev:
-                        kind = gen["kinds"][i - 1]
+                        kind = kinds[i - 1]
                         if "cr" in want and untranslate_eq(ev, gv):
                             sig = "C20|roundtrip|CR-in-string|%s" % op
                             what = ("a string value with a carriage return (%r) comes back as %r through %s (%s); loads keeps it"
-                                    % (ev, gv, op, "file holding the generated text" if of == "t" else "file written by save"))
+                                    % (ev, gv, op, where))
+                        elif of == "r" and gv == older.get(i):
+                            sig = "C20|read|%s|stale-after-rewrite" % op
+                            what = ("%s returns the value the file held before it was saved again: %r, the file now holds %r "
+                                    "(revision %d, %s)" % (op, gv, ev, post["rev"], state["how"]))
                         else:
                             sig = "C20|read|%s|%s" % (op, kind)
                             what = "string value %r (classes %s) comes back as %r through %s" % (ev, want, gv, op)
@@ -738,6 +791,50 @@ def api_case(job):
                 except Exception as ex:  # noqa: BLE001
                     info["skipped"] = "dumps/loads raised %s: C01/C03" % type(ex).__name__
                     break
+            elif a == "rewrite":
+                # the values change, the dictionary is saved to the same path again, at once
+                info["calls"] += 1
+                prev = state["sval"]
+                new = {}
+                for i in ids:
+                    want = act["post"]["strs"][i - 1]
+                    v = same_length_variant(prev[i]) if act["how"] == "same-length" else draw_string(act["kinds"][i - 1], i, rng, want)
+                    if v == prev[i]:
+                        v = same_length_variant(v)
+                    if runs(v) != list(want) or v == prev[i] or (act["how"] == "same-length" and len(v.encode("utf-8")) != len(prev[i].encode("utf-8"))):
+                        raise common.MachineryFailure("no %s variant of %r with classes %s (got %r)" % (act["how"], prev[i], want, v))
+                    new[i] = v
+                for i in ids:
+                    pool[(i + conc.salt) % len(ids)] = (new[i], "")
+                conc.strs = pool
+                text_r, _ = concretise.assemble(conc.tokens(concretise.with_root(walk, rt)))
+                exp_r = conc.expected(walk[-1]["post"])
+                try:
+                    mem = mappyfile.loads(text_r, expand_includes=False)
+                    if project.diff(exp_r, project.project(mem)):
+                        break                                   # (C02's business)
+                    state.update(mem=mem, refs={}, sval=new, older=prev, how=act["how"], kinds=act["kinds"],
+                                 by_val={v: i for i, v in new.items()})
+                    state["s_ref"] = reference(gen["lay"])
+                    back = project.project(mappyfile.loads(state["s_ref"], expand_includes=False))
+                    state["ref_s"] = (back, leaves(back))
+                    if sorted(v for _, v in state["ref_s"][1] if isinstance(v, str) and v in state["by_val"]) != \
+                            sorted(v for _, v in leaves(exp_r) if isinstance(v, str) and v in state["by_val"]):
+                        break                                   # (C01's business)
+                except Exception:  # noqa: BLE001
+                    break
+                size_before = os.path.getsize(ps)
+                try:
+                    mappyfile.save(fresh(), ps, **kw)
+                except Exception as ex:  # noqa: BLE001
+                    finds.append(("C20|write|save|raised|%s" % type(ex).__name__, "save raised %s: %s" % (type(ex).__name__, str(ex)[:100]), case))
+                    break
+                if read_bytes(ps) != state["s_ref"].encode("utf-8") or act["post"]["enc"] != "utf8":
+                    finds.append(("C20|write|save|differs-from-dumps", "save to a path that already holds an older revision does not leave "
+                                  "the characters dumps returns", case))
+                    break
+                info["rewrites"] += 1
+                info["same_size_rewrites"] += os.path.getsize(ps) == size_before
             elif a in ("open", "load", "loadraw", "loads"):
                 p = pt if act["of"] == "t" else ps
                 if a == "open":
@@ -805,7 +902,7 @@ def share_grammar(on):
     """Every public open/load/loads call builds a Parser, and every Parser compiles the Lark grammar
     (165 ms, 99% of the call).  With on=True the compiled grammar object returned by Lark.open for the
     plain option set is shared between Parser objects of this worker process; the code under test
-    runs unchanged above it.  One behaviour in eight runs with on=False."""
+    runs unchanged above it.  One behaviour in sixteen runs with on=False."""
     import lark
     global _lark_open
     if _lark_open is None:
@@ -828,7 +925,7 @@ def work(item):
     """one unit of replay work (worker process)"""
     kind, payload = item
     if kind == "api":
-        share_grammar(payload[0] % 8 != 0)
+        share_grammar(payload[0] % 16 != 0)
         try:
             return api_case(payload)
         finally:
@@ -869,7 +966,7 @@ def run(tier):
         walks = fw.result()
     t_tlc = time.time() - t0
     val, fmt, sch = split_cli(res["c20_cli"].prints)
-    if len(val) < 5000 or len(fmt) < 1600 or len(sch) != 8:
+    if len(val) < 5000 or len(fmt) < 1700 or len(sch) != 8:
         raise common.MachineryFailure("TLC emitted %d/%d/%d configurations" % (len(val), len(fmt), len(sch)))
     fes = [h for h in res["c20_api_walks"].prints if isinstance(h, list)]
     if len(fes) < n_api * 0.9:
@@ -896,6 +993,7 @@ def run(tier):
     kinds_seen = set()
     calls = 0
     opt_sensitive = 0
+    rewrites = same_size = 0
     def simplest_first(io):             # the first case reported under a signature should be a small one
         (kind, payload), _ = io
         return (0, 0) if kind == "api" else (1, len(payload[0][0].get("kinds", [])))
@@ -907,6 +1005,8 @@ def run(tier):
             calls += info["calls"]
             kinds_seen.update(info["present"])
             opt_sensitive += bool(info["order_sensitive"] and info["one_of_av_sc"])
+            rewrites += info["rewrites"]
+            same_size += info["same_size_rewrites"]
             ck.nontrivial([payload[1][:-1], payload[2][0]])
         else:
             ck.nontrivial(payload[0])
@@ -919,6 +1019,8 @@ def run(tier):
         ck.notes.append("%d generated documents left to other properties: %s" % (n, k))
     if opt_sensitive < 5:
         raise common.MachineryFailure("only %d documents on which separate_complex_types / align_values can tell writers apart" % opt_sensitive)
+    if same_size < 20:
+        raise common.MachineryFailure("only %d saves to an already opened path that kept the size of the file" % same_size)
     missing = set(POOL) - kinds_seen
     if missing and not quick:
         raise common.MachineryFailure("string kinds never exercised: %s" % sorted(missing))
@@ -929,7 +1031,7 @@ def run(tier):
     ck.sample({"validate": vsel[0]})
     ck.sample({"format": fsel[0]})
     ck.notes.append("wall: TLC (Frontend runs and document walks side by side) %.1fs, replay %.1fs" % (t_tlc, t_replay))
-    ck.notes.append("the compiled Lark grammar is shared between the Parser objects the public functions build in 7 of 8 "
+    ck.notes.append("the compiled Lark grammar is shared between the Parser objects the public functions build in 15 of 16 "
                     "api behaviours (see share_grammar); the command-line subprocesses and the format comparison run unshared")
     labels = {}
     for h in vsel:
@@ -939,7 +1041,9 @@ def run(tier):
         "format_configurations": len(fsel), "format_configurations_in_model": len(fmt),
         "schema_configurations": len(sch), "api_documents": n_docs - sum(skipped.values()), "api_calls": calls,
         "string_kinds_exercised": sorted(kinds_seen),
-        "documents_where_one_of_align_separate_changes_the_text": opt_sensitive, "negative_models_rejected": [n for n, _, _ in NEGATIVES]})
+        "documents_where_one_of_align_separate_changes_the_text": opt_sensitive,
+        "saves_to_a_path_opened_before": rewrites, "of_which_keep_the_file_size": same_size,
+        "format_in_place_configurations": sum(1 for h in fsel if h[0]["target"] != "other"), "negative_models_rejected": [n for n, _, _ in NEGATIVES]})
 
 
 def replay(path):
